@@ -320,7 +320,7 @@ func c18c(tp *tape.Tape) core.Result {
 	}
 	var stmts []string // top-level statements after the definitions; the last one's value is checked
 	var want string
-	tpl := tp.Draw(11)
+	tpl := tp.Draw(12)
 	key = key.Int(tpl).Int(w)
 	switch tpl {
 	case 0: // a generator yields a closure over its local; the consumer returns it out of the loop
@@ -362,6 +362,14 @@ func c18c(tp *tape.Tape) core.Result {
 		stmts = []string{fmt.Sprintf("outer(%d)", k), "{\n" + drawMid() + "\nouter(" + fmt.Sprint(k) + ")\n}"}
 		want = fmt.Sprint(k + 1)
 		r.Inc("C.closure_called_deeper", 1)
+	case 11: // a captured variable is updated after a deep call, on a stack that an earlier statement has already grown far beyond
+		// what the call needs: nothing is reallocated, so the closure must see the update (finding K3 is about the
+		// reallocating case only, which this program avoids by construction)
+		d := []int{100, 200, 400}[tp.Draw(3)]
+		defs = append(defs, fmt.Sprintf("upd = (v) -> {\n%sx = v\ng = () -> x\nra = deep(%d)\nx = v + 1\ng()\n}", pad(w), d))
+		stmts = []string{fmt.Sprintf("deep(%d)", 4000+tp.Draw(3000)), fmt.Sprintf("[upd(%d), upd(%d)]", k, k+10), "{\n" + drawMid() + fmt.Sprintf("\n[upd(%d), upd(%d)]\n}", k, k+10)}
+		want = fmt.Sprintf("[%d, %d]", k+1, k+11)
+		r.Inc("C.captured_variable_updated_on_a_stack_already_grown", 1)
 	case 10: // the same function, so the same frame shape at the same place, with other arguments after the stack was reallocated
 		defs = append(defs, "shp = (v) -> {\n"+pad(w)+"x = v * 2\nh = (y) -> x + y\nh(1)\n}")
 		d := []int{150, 300, 1200, 3000}[tp.Draw(4)]
